@@ -244,6 +244,52 @@ def check_C03(tier):
             R.report("C03", "after '%s' the files / contents differ from an uninterrupted run: %d vs %d files, count.txt %r vs %r"
                      % (h.label, len(got), len(ref), (last.snapshot.get("o/count.txt") or {}).get("text"), "150\n"), h)
     R.histories(dinst, dh, judge=dir_judge)
+    # generic convergence judge for instances outside the TaskFS naming scheme: after cleanup the re-run completes with the reference listing;
+    # with leftovers still in place it stops with a non-zero exit status
+    def listing_judge(inst0, cleaned):
+        def judge(h, exp):
+            last = h.runs[-1]
+            if cleaned:
+                ref = reference_listing(inst0)
+                if ref is None: chk.undecided.append("reference run of %s failed" % inst0["name"]); return
+                if last.timeout or last.deadlock or not last.completed or last.rc != 0:
+                    R.report("C03", "re-run after cleanup did not complete (history %s): rc=%s %s" % (h.label, last.rc, last.stderr[-160:].replace("\n", " | ")), h); return
+                got = listing_of(last.snapshot)
+                if got != ref:
+                    diff = sorted(k for k in set(got) | set(ref) if got.get(k) != ref.get(k))
+                    R.report("C03", "after '%s' the files / contents differ from an uninterrupted run: %s" % (h.label, diff[:5]), h)
+            else:
+                if last.timeout or last.deadlock:
+                    R.report("C03", "re-run with leftovers in place hangs (history %s)" % h.label, h)
+                elif last.rc == 0 or last.completed:
+                    R.report("C03", "re-run with leftovers still in place (history %s) exited with status %s, completed=%s: the leftover was adopted" % (h.label, last.rc, last.completed), h)
+        return judge
+    # streaming pair: FIFOs are leftovers like temp directories
+    st = dict(name="STC", max=2, bufsize=2, procs=[zoo.src("s", ["1"]), dict(name="p", kind="cmd", ins=["in"], outs=["out"], streams=["out"]), zoo.cmd("c", ["in"], ["out"])],
+              edges=[zoo.E("s.out", "p.in"), zoo.E("p.out", "c.in")])
+    hs_clean, hs_left = [], []
+    for spec in ["fifo.create#1", "task.spawn@p|#1", "exec.acquired@p|#1", "cmd.start@p|#1", "cmd.start@c|#1"]:
+        h = fs.History(st, [("run", {"VERIF_CRASH": spec}), ("cleanup",), ("run", None)], label="streaming: crash %s, cleanup (temp dirs and FIFOs), re-run" % spec); h.accept = False
+        hs_clean.append(h)
+        h = fs.History(st, [("run", {"VERIF_CRASH": spec}), ("cleanup_tmp_only",), ("run", None)], label="streaming: crash %s, temp dirs removed but the FIFO left, re-run" % spec); h.accept = False
+        hs_left.append(h)
+    R.histories(st, hs_clean, judge=listing_judge(st, True))
+    R.histories(st, hs_left, judge=listing_judge(st, False))
+    # a file-writing component (Concatenator) between tasks: killed while it has written part of its output
+    cc = dict(name="CCAT", max=1, bufsize=2,
+              procs=[zoo.src("s", zoo.items(3)), zoo.cmd("a", ["in"]), dict(name="cc", kind="concat", arg="o/all.txt"),
+                     dict(name="b", kind="cmd", ins=["x"], outs=["out"], outpaths={"out": "o/b_all.txt"}, arg="cat {i:x} > {o:out}")],
+              edges=[zoo.E("s.out", "a.in"), zoo.E("a.out", "cc.in"), zoo.E("cc.out", "b.x")], ctl={"a.sleep": "0.3"})
+    hs = []
+    for t in (0.45, 0.75, 1.0):
+        h = fs.History(cc, [("kill", t), ("cleanup",), ("run", None)], label="Concatenator killed after %.2f s (part of its output written), cleanup, re-run" % t); h.accept = False
+        hs.append(h)
+    for h in hs: h.exp = None          # the component is not a process kind of Flow.tla: judged by the listing only
+    jd = listing_judge(cc, True)
+    for h in pmap(fs.run_history, hs, workers=3):
+        chk.evaluations += len(h.runs)
+        jd(h, None)
+        chk.nontrivial.add("hist:CCAT:" + h.label)
     # random external kills while slow commands run
     inst = FB(); inst["ctl"] = {"ALL.sleep": "0.15"}
     hs = []
@@ -650,6 +696,36 @@ def check_C02(tier):
                edges=[zoo.E("s.out", "a.in"), zoo.E("a.out", "b.x")])
     hmc = fs.History(mcb, [("run", None), ("run", None)], label="complete run of 2- and 3-core tasks, run again"); hmc.accept = False
     R.histories(mcb, [hmc], judge=rerun_judge)
+    # an out-port whose path is declared with SetOut only (no {o:..} placeholder in the command: the tool picks its own file name)
+    nph = dict(name="NPH", max=2, bufsize=2,
+               procs=[zoo.src("s", zoo.items(2)),
+                      dict(name="mk", kind="cmd", ins=["in"], outs=["report"], outpaths={"report": "o/report_{i:in|basename}"},
+                           arg="echo RAN {i:in|basename} >> ../ran.log; mkdir -p o; cat {i:in} > o/report_{i:in|basename}"),
+                      dict(name="use", kind="cmd", ins=["x"], outs=["out"], outpaths={"out": "o/use_{i:x|basename}"}, arg="cat {i:x} > {o:out}")],
+               edges=[zoo.E("s.out", "mk.in"), zoo.E("mk.report", "use.x")])
+    d = scratch("nph")
+    try:
+        prepare_dir(nph, d)
+        os.makedirs(os.path.join(d, "o"), exist_ok=True)
+        open(os.path.join(d, "o", "report_1.txt"), "w").write("USER REPORT\n")
+        st0 = os.stat(os.path.join(d, "o", "report_1.txt"))
+        rr = run_real(nph, d, timeout=40); chk.evaluations += 1
+        ran = open(os.path.join(d, "ran.log")).read() if os.path.exists(os.path.join(d, "ran.log")) else ""
+        st1 = os.stat(os.path.join(d, "o", "report_1.txt")) if os.path.exists(os.path.join(d, "o", "report_1.txt")) else None
+        txt = open(os.path.join(d, "o", "report_1.txt")).read() if st1 else None
+        if rr.timeout or rr.deadlock or rr.rc != 0 or not rr.completed:
+            chk.undecided.append("placeholder-less out-port scenario failed: rc=%s %s" % (rr.rc, rr.stderr[-200:]))
+        else:
+            if "RAN 1.txt" in ran:
+                chk.violation("task mk:1 was executed although its declared output o/report_1.txt (out-port declared with SetOut only, no placeholder in the command) existed", dict(instance=nph, ran=ran))
+            if txt != "USER REPORT\n" or st1.st_ino != st0.st_ino or st1.st_mtime_ns != st0.st_mtime_ns:
+                chk.violation("the existing output o/report_1.txt of a placeholder-less out-port was modified or replaced", dict(instance=nph, content=txt))
+            use1 = rr.snapshot.get("o/use_report_1.txt", {}).get("text")
+            if use1 != "USER REPORT\n":
+                chk.violation("downstream did not receive the existing file of the placeholder-less out-port: o/use_report_1.txt = %r" % use1, dict(instance=nph))
+            if "RAN 2.txt" in ran: chk.nontrivial.add("placeholder-less out-port")
+    finally:
+        rmtree(d)
     # partial presence inside a multi-output task (user deleted / placed one of two outputs)
     for pre in (["a.o2_1"], ["a.o1_1"]):
         inst = FA(extra=False); inst["pre"] = pre
